@@ -23,24 +23,27 @@ import (
 // resolver-backed position and directive invocation yields; the generated
 // executor's resolvers and the reference read the same answers.
 type world struct {
-	mu            sync.Mutex
-	outs          map[string]ref.Out
-	guards        map[string]ref.Kind
-	budget        int  // how many positions may still deviate from the default outcome
-	panics        bool // outcome alphabet includes panic
-	calls         []string
-	recovers      int
-	raised        int         // panics actually raised by user code
-	args          []string    // arguments received by User.calc, rendered
-	introspection bool        // introspection enabled for the operation
-	onCall        func(n int) // called at the n-th resolver call (cancellation points)
-	regExt        bool        // every resolver-backed field registers the response extension "cost": the second registration is an API misuse that panics inside gqlgen
-	regs          int
-	cancels       bool    // the harness cancels the request context itself (C05): a cancelled context is not a fault then
-	subEvents     []*User // the events the subscription resolver emitted
-	onlyIntercept bool    // deviations are spent on interceptor outcomes only
-	intercept     bool    // the field interceptor may fail (C04): one more fault point around every field
-	gated         bool    // resolver calls are schedule gates (C06/C13: completion orders are replayed natively)
+	mu             sync.Mutex
+	outs           map[string]ref.Out
+	guards         map[string]ref.Kind
+	budget         int  // how many positions may still deviate from the default outcome
+	panics         bool // outcome alphabet includes panic
+	calls          []string
+	recovers       int
+	raised         int         // panics actually raised by user code
+	args           []string    // arguments received by User.calc, rendered
+	introspection  bool        // introspection enabled for the operation
+	onCall         func(n int) // called at the n-th resolver call (cancellation points)
+	regExt         bool        // every resolver-backed field registers the response extension "cost": the second registration is an API misuse that panics inside gqlgen
+	regs           int
+	regExtOwn      bool     // every resolver-backed field registers an extension under its own key
+	regKeys        []string // the keys registered so far
+	defaultRecover bool     // the operation runs with graphql.DefaultRecover (what a server without SetRecoverFunc uses)
+	cancels        bool     // the harness cancels the request context itself (C05): a cancelled context is not a fault then
+	subEvents      []*User  // the events the subscription resolver emitted
+	onlyIntercept  bool     // deviations are spent on interceptor outcomes only
+	intercept      bool     // the field interceptor may fail (C04): one more fault point around every field
+	gated          bool     // resolver calls are schedule gates (C06/C13: completion orders are replayed natively)
 }
 
 var theWorld *world
@@ -332,6 +335,16 @@ func (w *world) fieldMiddleware(ctx context.Context, next graphql.Resolver) (any
 			return nil, err
 		}
 	}
+	if w.regExtOwn {
+		// every resolver-backed field registers a response extension under a key of its own (what tracing / cost extensions do)
+		if fc := graphql.GetFieldContext(ctx); fc.IsResolver {
+			key := "x:" + worldPID(fc) + "/" + fc.Field.Alias
+			w.mu.Lock()
+			w.regKeys = append(w.regKeys, key)
+			w.mu.Unlock()
+			graphql.RegisterExtension(ctx, key, 1)
+		}
+	}
 	if w.regExt {
 		if fc := graphql.GetFieldContext(ctx); fc.IsResolver {
 			w.mu.Lock()
@@ -434,6 +447,8 @@ var errBoom = errors.New("boom")
 
 func outErr(o ref.Out) (bool, error) {
 	switch o.K {
+	case ref.KErrors:
+		return true, gqlerror.List{gqlerror.Errorf("boom 1"), gqlerror.Errorf("boom 2")}
 	case ref.KError:
 		return true, errBoom
 	case ref.KPanic:
@@ -1067,6 +1082,14 @@ func newExecutorFor(es graphql.ExecutableSchema, w *world) *executor.Executor {
 }
 
 func opCtxFor(w *world, doc *ast.QueryDocument, vars map[string]any) *graphql.OperationContext {
+	oc := opCtxFor0(w, doc, vars)
+	if w.defaultRecover {
+		oc.RecoverFunc = graphql.DefaultRecover
+	}
+	return oc
+}
+
+func opCtxFor0(w *world, doc *ast.QueryDocument, vars map[string]any) *graphql.OperationContext {
 	return &graphql.OperationContext{
 		RawQuery: "", Variables: vars, Doc: doc, Operation: doc.Operations[0], DisableIntrospection: !w.introspection,
 		RecoverFunc: func(ctx context.Context, err any) error {
